@@ -28,6 +28,13 @@ class Boom(Exception):
     """The injected user fault."""
 
 
+class BadStr(Boom):
+    """An injected fault whose message cannot be rendered: str() of it raises."""
+
+    def __str__(self):
+        raise TypeError("can only concatenate str (not \"int\") to str")
+
+
 class _G:
     log = []
     cnt = collections.Counter()
@@ -60,6 +67,8 @@ def cb(site, obj=None, extra=None):
     pat = _G.fault.get(site)
     if pat is not None and (pat == "every" or n == pat or (isinstance(pat, (list, tuple)) and n in pat)):
         rec.append("raised")
+        if _G.fault.get("__exc__") == "badstr":
+            raise BadStr(site)
         raise Boom(site)
 
 
@@ -245,7 +254,7 @@ def set_ds(mode, fms, attached=True):
 
 def run_life(lay, history, fms=False, faults=None, hooks=(), fbvalue=None, observe=None, end=True, mode_extra="", step_plan=None):
     """history: string over 'datx'; history[0] is the driver-station word at boot.  One loop iteration per
-    later element.  Returns a Life.  observe(robot, step_index) is called by the harness between steps."""
+    later element.  fms: bool, or one bool per history element (the FMS attaches / detaches between iterations).  Returns a Life.  observe(robot, step_index) is called by the harness between steps."""
     import hal.simulation as hs
     import magicbot
     import ntcore
@@ -267,7 +276,8 @@ def run_life(lay, history, fms=False, faults=None, hooks=(), fbvalue=None, obser
         _G.evq.get_nowait()
     DS.resetData()
     DS.setSendError(False)
-    set_ds(history[0], fms)
+    fms_at = (lambda k: bool(fms[min(k, len(fms) - 1)])) if isinstance(fms, (list, tuple)) else (lambda k: fms)
+    set_ds(history[0], fms_at(0))
     # local-only NetworkTables: RobotBase's StartServer() becomes a no-op, so parallel workers do not fight
     # over the NT ports (the same thing pyfrc does for robot tests)
     ntcore.NetworkTableInstance.getDefault().startLocal()
@@ -343,7 +353,7 @@ def run_life(lay, history, fms=False, faults=None, hooks=(), fbvalue=None, obser
             if k >= len(history):
                 break
             m = history[k]
-            set_ds(m, fms)
+            set_ds(m, fms_at(k))
             now = wpilib.RobotController.getFPGATime()
             life.steps.append(dict(mode=EFFECTIVE[m], raw=m, start=len(_G.log)))
             extra = step_plan[k] if step_plan else 0
